@@ -33,11 +33,13 @@ package geom
 //@ func LineString.ForceCoordinatesType
 //@   ensures result.seq.ctype == newCType && NPts(result.seq) == NPts(s.seq)
 //@ func LineString.CoordinatesType
+//@   notypeinv
 //@   ensures result == s.seq.ctype
 //@ func LineString.Reverse
 //@   ensures result.seq.ctype == s.seq.ctype && len(result.seq.floats) == len(s.seq.floats)
 
 //@ func Polygon.CoordinatesType
+//@   notypeinv
 //@   ensures result == p.ctype
 //@ func Polygon.ForceCoordinatesType
 //@   ensures result.ctype == newCType && len(result.rings) == len(p.rings) && fresh(result.rings)
@@ -348,4 +350,7 @@ package geom
 //@ func Geometry.appendDump
 //@   trusted
 //@ func Geometry.Dump
+//@   trusted
+
+//@ func GeometryCollection.NumTotalGeometries
 //@   trusted
